@@ -21,7 +21,9 @@ func c26(r *core.Run) {
 		"(R4) the tryUpdate recover arms equal the reviewed summary (C01.R3 table)."
 	r.NotDecided = "the per-account contract model over sequences of operations; program caches."
 	w := r.W
-	named := func(n string) func(*types.Func) bool { return func(o *types.Func) bool { return o != nil && o.Name() == n } }
+	named := func(n string) func(*types.Func) bool {
+		return func(o *types.Func) bool { return o != nil && o.Name() == n }
+	}
 
 	// R1 borrow
 	if fn := mustFn(r, "R1.borrow", "stdlib", "", "AccountContractsBorrow"); fn != nil {
